@@ -75,26 +75,38 @@ def static_ties(lib):
     src = os.path.join(lib, 'gen', 'src', 'drivers', 'ncmpio')
     hg = open(os.path.join(src, 'ncmpio_header_get.c')).read()
     nospace = re.sub(r'\s+', '', hg)
+    # pattern -> number of occurrences (the 32-bit and the 64-bit branch of a test are separate lines:
+    # a change of ONE branch must break the tie)
     pats = {
-        'chunk normalisation': 'getbuf.chunk=PNETCDF_RNDUP(MAX(MIN_NC_XSZ+4,ncp->chunk),X_ALIGN);',
-        'slack special case': 'slack=gbp->chunk-(gbp->pos-gbp->base);if(slack==gbp->chunk)slack=0;',
-        'zero fill': 'if(get_size<readLen)memset(readBuf+get_size,0,readLen-get_size);',
-        'offset advance': 'gbp->offset+=readLen;',
-        'u32 guard': 'if(gbp->pos+4>gbp->end){err=hdr_fetch(gbp);',
-        'u64 guard': 'if(gbp->pos+8>gbp->end){err=hdr_fetch(gbp);',
-        'padding guard': 'if(gbp->pos+padding>gbp->end){err=hdr_fetch(gbp);',
-        'name limit': 'if(tmp>NC_MAX_NAME)DEBUG_RETURN_ERROR(NC_EMAXNAME)',
-        'unlimited once': 'if(unlimited_id!=-1&&dim_length==0){',
-        'array growby': 'alloc_size=PNETCDF_RNDUP(ncap->ndefined,PNC_ARRAY_GROWBY);',
-        'dimid check': 'if(tmp>=f_ndims){DEBUG_ASSIGN_ERROR(err,NC_EBADDIM)',
-        'begin by version': 'if(gbp->version==1){uinttmp;err=hdr_get_uint32(gbp,&tmp);varp->begin=(MPI_Offset)tmp;}',
-        'attrV nbytes': 'nbytes=attrp->nelems*xsz;padding=attrp->xsz-nbytes;',
-        'final layout test': 'if(ncp->begin_var<=0||ncp->xsz>ncp->begin_var||ncp->begin_rec<=0||ncp->begin_var>ncp->begin_rec)',
-        'post checks order': 'err=compute_var_shape(ncp);',
+        'chunk normalisation': ('getbuf.chunk=PNETCDF_RNDUP(MAX(MIN_NC_XSZ+4,ncp->chunk),X_ALIGN);', 1),
+        'slack special case': ('slack=gbp->chunk-(gbp->pos-gbp->base);if(slack==gbp->chunk)slack=0;', 1),
+        'zero fill': ('if(get_size<readLen)memset(readBuf+get_size,0,readLen-get_size);', 1),
+        'offset advance': ('gbp->offset+=readLen;', 1),
+        'u32 guard': ('if(gbp->pos+4>gbp->end){err=hdr_fetch(gbp);', 3),
+        'u64 guard': ('if(gbp->pos+8>gbp->end){err=hdr_fetch(gbp);', 1),
+        'padding guard': ('if(gbp->pos+padding>gbp->end){err=hdr_fetch(gbp);', 2),
+        'name limit (32/64)': ('if(tmp>NC_MAX_NAME)DEBUG_RETURN_ERROR(NC_EMAXNAME)', 2),
+        'unlimited once': ('if(unlimited_id!=-1&&dim_length==0){', 1),
+        'array growby': ('alloc_size=PNETCDF_RNDUP(ncap->ndefined,PNC_ARRAY_GROWBY);', 3),
+        'count limit dims (32/64)': ('if(tmp>NC_MAX_DIMS)DEBUG_RETURN_ERROR(NC_EMAXDIMS)', 2),
+        'count limit attrs (32/64)': ('if(tmp>NC_MAX_ATTRS)DEBUG_RETURN_ERROR(NC_EMAXATTS)', 2),
+        'count limit vars (32/64)': ('if(tmp>NC_MAX_VARS)DEBUG_RETURN_ERROR(NC_EMAXVARS)', 2),
+        'var ndims limit (32/64)': ('if(tmp>NC_MAX_VAR_DIMS){', 2),
+        'empty list': ('if(ndefined==0)returnNC_NOERR;', 3),
+        'tag dims': ('if(tag!=NC_DIMENSION){', 1),
+        'tag attrs': ('if(tag!=NC_ATTRIBUTE){', 1),
+        'tag vars': ('if(tag!=NC_VARIABLE){', 1),
+        'type lower bound': ('if(xtype<NC_BYTE)DEBUG_RETURN_ERROR(NC_EBADTYPE)', 1),
+        'type upper bound': ('if(gbp->version<5){if(xtype>NC_DOUBLE)DEBUG_RETURN_ERROR(NC_EBADTYPE)}elseif(xtype>NC_UINT64)DEBUG_RETURN_ERROR(NC_EBADTYPE)', 1),
+        'dimid range test (32/64)': ('if(tmp>=f_ndims){DEBUG_ASSIGN_ERROR(err,NC_EBADDIM)', 2),
+        'begin by version': ('if(gbp->version==1){uinttmp;err=hdr_get_uint32(gbp,&tmp);varp->begin=(MPI_Offset)tmp;}', 1),
+        'attrV nbytes': ('nbytes=attrp->nelems*xsz;padding=attrp->xsz-nbytes;', 1),
+        'final layout test': ('if(ncp->begin_var<=0||ncp->xsz>ncp->begin_var||ncp->begin_rec<=0||ncp->begin_var>ncp->begin_rec)', 1),
+        'post checks order': ('err=compute_var_shape(ncp);', 1),
     }
-    for k, p in pats.items():
-        if p not in nospace:
-            bad.append('source pattern changed in ncmpio_header_get.c: ' + k)
+    for k, (p, n) in pats.items():
+        if nospace.count(p) != n:
+            bad.append('source pattern changed in ncmpio_header_get.c: %s (%d occurrence(s), expected %d)' % (k, nospace.count(p), n))
     nh = open(os.path.join(src, 'ncmpio_NC.h')).read()
     if not re.search(r'#define\s+IS_RECVAR\(vp\)\s*\\\s*\(\(vp\)->shape != NULL \? \(\*\(vp\)->shape == NC_UNLIMITED\) : 0 \)', nh):
         bad.append('IS_RECVAR changed in ncmpio_NC.h')
